@@ -8,6 +8,8 @@
 //!   enum: variant index in the declared width ++ fields.
 pub trait RefEnc {
     fn renc(&self, version: u32, out: &mut Vec<u8>);
+    /// the in-memory bit pattern is a valid value of the type (bool is 0/1, char is a scalar value, ...)
+    fn ok(&self) -> bool { true }
 }
 pub fn ref_bytes<T: RefEnc>(v: &T, version: u32) -> Vec<u8> {
     let mut out = Vec::new();
@@ -22,8 +24,14 @@ impl RefEnc for usize { fn renc(&self, _v: u32, out: &mut Vec<u8>) { out.extend_
 impl RefEnc for isize { fn renc(&self, _v: u32, out: &mut Vec<u8>) { out.extend_from_slice(&(*self as i64).to_le_bytes()); } }
 impl RefEnc for f32 { fn renc(&self, _v: u32, out: &mut Vec<u8>) { out.extend_from_slice(&self.to_bits().to_le_bytes()); } }
 impl RefEnc for f64 { fn renc(&self, _v: u32, out: &mut Vec<u8>) { out.extend_from_slice(&self.to_bits().to_le_bytes()); } }
-impl RefEnc for bool { fn renc(&self, _v: u32, out: &mut Vec<u8>) { out.push(if *self { 1 } else { 0 }); } }
-impl RefEnc for char { fn renc(&self, _v: u32, out: &mut Vec<u8>) { out.extend_from_slice(&(*self as u32).to_le_bytes()); } }
+impl RefEnc for bool {
+    fn renc(&self, _v: u32, out: &mut Vec<u8>) { out.push(if *self { 1 } else { 0 }); }
+    fn ok(&self) -> bool { unsafe { *(self as *const bool as *const u8) <= 1 } }
+}
+impl RefEnc for char {
+    fn renc(&self, _v: u32, out: &mut Vec<u8>) { out.extend_from_slice(&(*self as u32).to_le_bytes()); }
+    fn ok(&self) -> bool { let x = unsafe { *(self as *const char as *const u32) }; x < 0xD800 || (x > 0xDFFF && x <= 0x10FFFF) }
+}
 impl RefEnc for () { fn renc(&self, _v: u32, _out: &mut Vec<u8>) {} }
 impl RefEnc for String {
     fn renc(&self, _v: u32, out: &mut Vec<u8>) {
@@ -35,6 +43,7 @@ impl<T: RefEnc> RefEnc for Option<T> {
     fn renc(&self, v: u32, out: &mut Vec<u8>) {
         match self { None => out.push(0), Some(x) => { out.push(1); x.renc(v, out); } }
     }
+    fn ok(&self) -> bool { match self { None => true, Some(x) => x.ok() } }
 }
 impl<T: RefEnc, E: RefEnc> RefEnc for Result<T, E> {
     fn renc(&self, v: u32, out: &mut Vec<u8>) {
@@ -46,15 +55,21 @@ impl<T: RefEnc> RefEnc for Vec<T> {
         out.extend_from_slice(&(self.len() as u64).to_le_bytes());
         for x in self.iter() { x.renc(v, out); }
     }
+    fn ok(&self) -> bool { let mut r = true; for x in self.iter() { r = r && x.ok(); } r }
 }
-impl<T: RefEnc> RefEnc for Box<T> { fn renc(&self, v: u32, out: &mut Vec<u8>) { (**self).renc(v, out); } }
+impl<T: RefEnc> RefEnc for Box<T> { fn renc(&self, v: u32, out: &mut Vec<u8>) { (**self).renc(v, out); } fn ok(&self) -> bool { (**self).ok() } }
 impl<T: RefEnc, const N: usize> RefEnc for [T; N] {
     fn renc(&self, v: u32, out: &mut Vec<u8>) { for x in self.iter() { x.renc(v, out); } }
+    fn ok(&self) -> bool { let mut r = true; for x in self.iter() { r = r && x.ok(); } r }
 }
-impl<A: RefEnc> RefEnc for (A,) { fn renc(&self, v: u32, out: &mut Vec<u8>) { self.0.renc(v, out); } }
-impl<A: RefEnc, B: RefEnc> RefEnc for (A, B) { fn renc(&self, v: u32, out: &mut Vec<u8>) { self.0.renc(v, out); self.1.renc(v, out); } }
+impl<A: RefEnc> RefEnc for (A,) { fn renc(&self, v: u32, out: &mut Vec<u8>) { self.0.renc(v, out); } fn ok(&self) -> bool { self.0.ok() } }
+impl<A: RefEnc, B: RefEnc> RefEnc for (A, B) {
+    fn renc(&self, v: u32, out: &mut Vec<u8>) { self.0.renc(v, out); self.1.renc(v, out); }
+    fn ok(&self) -> bool { self.0.ok() && self.1.ok() }
+}
 impl<A: RefEnc, B: RefEnc, C: RefEnc> RefEnc for (A, B, C) {
     fn renc(&self, v: u32, out: &mut Vec<u8>) { self.0.renc(v, out); self.1.renc(v, out); self.2.renc(v, out); }
+    fn ok(&self) -> bool { self.0.ok() && self.1.ok() && self.2.ok() }
 }
 /// file header: magic, library format version (u16), data version (u32), compression flag
 pub fn ref_header(libver: u16, dataver: u32, compressed: bool) -> Vec<u8> {
